@@ -70,20 +70,18 @@ partial def dContent (j : Json) : Except String DtdContent :=
 def sitesArg (a : Json) : Except String (List Site) := do
   (← asArr (fld a "sites")).mapM dSite
 
-def optSites : Option (List Site) → Json
-  | some ss => ok (jList jSite ss)
-  | none => err "LEAK:AssertionError"
+def okSites (ss : List Site) : Json := ok (jList jSite ss)
 
 def run (op : String) (a : Json) : Option (Except String Json) :=
   match op with
   | "gen.calc_paths" => some do pure <| ok (jList jSite (calculatePaths (← sitesArg a)))
-  | "gen.effective" => some do pure <| optSites (effectiveChoice (← sitesArg a))
+  | "gen.effective" => some do pure <| okSites (effectiveChoice (← sitesArg a))
   | "gen.merge" => some do pure <| ok (jList jSite (mergeDuplicates (← sitesArg a)))
-  | "gen.occurs" => some do pure <| optSites (occurs (← sitesArg a))
+  | "gen.occurs" => some do pure <| okSites (occurs (← sitesArg a))
   | "gen.xsd_sites" => some do pure <| ok (jList jSite (sites (← dParticle (fld a "particle"))))
-  | "gen.xsd_occurs" => some do pure <| optSites (occurs (sites (← dParticle (fld a "particle"))))
+  | "gen.xsd_occurs" => some do pure <| okSites (occurs (sites (← dParticle (fld a "particle"))))
   | "gen.dtd_sites" => some do pure <| ok (jList jSite (dtdSites (← dContent (fld a "content"))))
-  | "gen.dtd_occurs" | "gen.dtd_fields" => some do pure <| optSites (occurs (dtdSites (← dContent (fld a "content"))))
+  | "gen.dtd_occurs" | "gen.dtd_fields" => some do pure <| okSites (occurs (dtdSites (← dContent (fld a "content"))))
   | "gen.dtd_nsmap" => some do
       let dOpt (j : Json) : Except String (Option Str) := match j with
         | .null => pure none
